@@ -32,6 +32,18 @@ TRUSTED = ['translator harness/regen_codes.py (packs code.stabilizer_matrix / lo
 ASSUMPTIONS = ['supported lattice families as fixed in DESIGN.md section 4']
 
 
+def lattice_modules():
+    """hand-written all-sizes lattice models: harness/lattices/<name>.py, each with CLASS,
+    LEAN_MODULES and streams(ctx)"""
+    import importlib
+    import pkgutil
+    import harness.lattices as L
+    return [importlib.import_module(f'harness.lattices.{m.name}') for m in pkgutil.iter_modules(L.__path__)]
+
+
+PROPERTY_MODULES = ['PanqecVerif.Properties.C01'] + [lm for m in lattice_modules() for lm in m.LEAN_MODULES]
+
+
 def regen(ctx):
     info = R.regen_instances()
     d = R.regen_deformations()
@@ -198,4 +210,7 @@ def correspondence(ctx):
                   f'{nat_list(bidx)} {nat_list(dual)} {nat_list(combo)}')
             s.add(op, ans, {'code': label, 'n': n, 'k': k, 'reference': ref},
                   tag=cls + ('' if size in inst else ':beyond-table'))
-    return [s.run()]
+    out = [s.run()]
+    for m in lattice_modules():
+        out.extend(m.streams(ctx))
+    return out
